@@ -312,8 +312,10 @@ def strokeK (closed : Bool) : PK := if closed then .s else .S
 def bothK (closed eo : Bool) : PK :=
   if eo then (if closed then .bstar else .Bstar) else (if closed then .b else .B)
 
+/-- both paints opaque colours: only then one B/b operator is used (pdf.go 147-149 since 246aeb0; under
+alpha < 1 the operator would paint fill and stroke as one knockout group) -/
 def Draw.sameAlpha (d : Draw ν) : Bool :=
-  d.fill.isColor && d.stroke.isColor && d.fill.alpha == d.stroke.alpha
+  d.fill.isColor && d.stroke.isColor && d.fill.alpha == 255 && d.stroke.alpha == 255
 
 def pdfStrokeSetup (d : Draw ν) : List (PAct ν) :=
   [setStroke d.stroke, setLineWidth N (d.w' N d.join.pdfOk), setLineCap d.cap, setLineJoin N d.join,
